@@ -5,6 +5,7 @@ import re
 from .. import q
 from ..cfg import guards, guard_atoms, build_cfg
 from ..prog import strip_cast, dotted
+from .common import helper_family
 
 EXPLANATION = (
     'Static rules over sismic/bdd/steps.py, sismic/bdd/environment.py, sismic/testing.py and docs/behavior.rst: every `then` step '
@@ -83,6 +84,27 @@ def _success_conditions(F):
             c = v.args[0]
             alts.append((base + [(c.elt, True)] + [(i, True) for g_ in c.generators for i in g_.ifs], x))
             continue
+        if isinstance(v, ast.Name):
+            # a result variable: the verdict is true exactly where it is set to True (it starts False, outside any loop)
+            defs = q.assigned_value(F, v.id)
+            consts = [(st, val) for st, val in defs if isinstance(strip_cast(val), ast.Constant) and isinstance(strip_cast(val).value, bool)]
+            if defs and len(consts) == len(defs):
+                falses = [st for st, val in consts if strip_cast(val).value is False]
+                if all(q.enclosing(st, (ast.For, ast.While)) is None for st in falses):
+                    for st, val in consts:
+                        if strip_cast(val).value is True:
+                            alts.append((base + [(g[0], g[1]) for g in guards(st)], st))
+                    continue
+            # .. or a value computed once by any(..) / a boolean expression
+            if len(defs) == 1 and not isinstance(strip_cast(defs[0][1]), ast.Name):
+                v2 = strip_cast(defs[0][1])
+                b2 = base + [(g[0], g[1]) for g in guards(defs[0][0])]
+                if isinstance(v2, ast.Call) and isinstance(v2.func, ast.Name) and v2.func.id == 'any' and len(v2.args) == 1 and isinstance(v2.args[0], (ast.GeneratorExp, ast.ListComp)):
+                    c = v2.args[0]
+                    alts.append((b2 + [(c.elt, True)] + [(i, True) for g_ in c.generators for i in g_.ifs], x))
+                else:
+                    alts.append((b2 + [(v2, True)], x))
+                continue
         alts.append((base + [(v, True)], x))
     return alts
 
@@ -235,7 +257,13 @@ def rules_verdict_condition(run, r3, tmod):
         sp = q.param_names(F)[0]
         iters = [n.iter for n in q.walk(F) if isinstance(n, (ast.For, ast.comprehension)) and sp in value_names(F, n.iter) and not isinstance(strip_cast(n.iter), ast.Attribute)
                  and not q.unparse(n.iter).endswith('.items()')]
-        iters = [it for it in iters if isinstance(strip_cast(it), ast.Name)]
+        # (the steps handed to a private helper that does the iterating count as well)
+        for c_ in q.calls(F):
+            if isinstance(c_.func, ast.Name) and c_.func.id.startswith('_'):
+                iters += [a_ for a_ in c_.args if sp in value_names(F, a_) and (isinstance(strip_cast(a_), ast.IfExp) or (
+                    isinstance(strip_cast(a_), ast.Name) and not q.for_targets(F, strip_cast(a_).id) and not any(
+                        isinstance(g_, ast.comprehension) and any(isinstance(x, ast.Name) and x.id == strip_cast(a_).id for x in ast.walk(g_.target)) for g_ in q.walk(F))))]
+        iters = [it for it in iters if isinstance(strip_cast(it), (ast.Name, ast.IfExp))]
         okw = bool(iters)
         for it in iters:
             cs = q.cases(F, it)
@@ -335,7 +363,45 @@ def norm_test(F, test):
         if type(op) in neg:
             pol = not pol
             test = ast.Compare(left=test.left, ops=[neg[type(op)]()], comparators=test.comparators)
-    return pol, q.unparse(test)
+    return pol, q.unparse(_resolve_locals(F, test))
+
+
+def _resolve_locals(F, expr, depth=0):
+    """expr with every local that has a single definition replaced by the defining expression (plain or tuple-unpacking assignment), so that the
+    canonical text does not depend on how temporaries are named."""
+    import copy as _copy
+    if depth > 3:
+        return expr
+    params = set(q.param_names(F))
+
+    def definition(name):
+        found = []
+        for n in q.walk(F, False):
+            if isinstance(n, ast.Assign) and len(n.targets) == 1:
+                t = n.targets[0]
+                if isinstance(t, ast.Name) and t.id == name:
+                    found.append(n.value)
+                elif isinstance(t, (ast.Tuple, ast.List)) and isinstance(strip_cast(n.value), (ast.Tuple, ast.List)) and len(t.elts) == len(strip_cast(n.value).elts):
+                    for te, ve in zip(t.elts, strip_cast(n.value).elts):
+                        if isinstance(te, ast.Name) and te.id == name:
+                            found.append(ve)
+                elif any(isinstance(x, ast.Name) and x.id == name for x in ast.walk(t)):
+                    found.append(None)
+            elif isinstance(n, (ast.For, ast.AugAssign, ast.With)) and any(isinstance(x, ast.Name) and x.id == name and isinstance(x.ctx, ast.Store) for x in ast.walk(n.target if not isinstance(n, ast.With) else n)):
+                found.append(None)
+        return found[0] if len(found) == 1 and found[0] is not None else None
+
+    class _T(ast.NodeTransformer):
+        def visit_Name(self, node):
+            if isinstance(node.ctx, ast.Load) and node.id not in params:
+                d = definition(node.id)
+                if d is not None and not any(isinstance(x, ast.Name) and x.id == node.id for x in ast.walk(d)):
+                    return _resolve_locals(F, _copy.deepcopy(strip_cast(d)), depth + 1)
+            return node
+
+        def visit_Lambda(self, node):
+            return node
+    return _T().visit(_copy.deepcopy(expr))
 
 
 def check(run):
@@ -445,71 +511,49 @@ def check(run):
     want = {'state_is_entered': 'entered_states', 'state_is_exited': 'exited_states', 'event_is_fired': 'sent_events', 'event_is_consumed': 'event',
             'transition_is_processed': 'transitions'}
     tmod = run.tree.modules['sismic.testing']
+    STEP_ATTRS = {'entered_states', 'exited_states', 'sent_events', 'event', 'transitions', 'steps', 'time'}
+
+    def helper_closure(F):
+        """F plus the private functions of sismic.testing it calls (transitively)."""
+        out, work = [F], [F]
+        while work:
+            g = work.pop()
+            for c in q.calls(g):
+                if isinstance(c.func, ast.Name) and c.func.id.startswith('_'):
+                    for h in tmod.tree.body:
+                        if isinstance(h, ast.FunctionDef) and h.name == c.func.id and h not in out:
+                            out.append(h)
+                            work.append(h)
+        return out
     for fname, attr in want.items():
         fi = run.fn('sismic.testing:' + fname)
         F = fi.node
         ps = q.param_names(F)
-        # iteration sites over the given steps: for loops and comprehension generators
-        aliases = {ps[0]}
-        for _ in range(4):
-            for n_ in q.walk(F):
-                if isinstance(n_, ast.Assign) and isinstance(n_.targets[0], ast.Name) and any(isinstance(x, ast.Name) and x.id in aliases for x in ast.walk(n_.value)):
-                    aliases.add(n_.targets[0].id)
-        sites = [n for n in q.walk(F) if isinstance(n, (ast.For, ast.comprehension)) and isinstance(strip_cast(n.iter), ast.Name) and strip_cast(n.iter).id in aliases]
-        run.check(len(sites) >= 1, r3, fi.short, 'iterates the given macro steps', 'does not iterate %s' % ps[0], F)
-        attrs = set()
-        for site in sites:
-            sv = site.target.id if isinstance(site.target, ast.Name) else None
-            scope = site if isinstance(site, ast.For) else getattr(site, '_parent', F)
-            for n in ast.walk(scope):
-                if isinstance(n, ast.Attribute) and isinstance(n.value, ast.Name) and n.value.id == sv:
-                    attrs.add(n.attr)
+        fam = helper_closure(F)
+        # which attribute of the macro steps is consulted (in the predicate or in the private helpers it calls)
+        attrs = {n.attr for g in fam for n in ast.walk(g) if isinstance(n, ast.Attribute) and n.attr in STEP_ATTRS and isinstance(n.ctx, ast.Load)}
+        attrs |= {q.const_str(n.args[1]) for g in fam for n in ast.walk(g) if isinstance(n, ast.Call) and isinstance(n.func, ast.Name) and n.func.id == 'getattr'
+                  and len(n.args) >= 2 and q.const_str(n.args[1]) in STEP_ATTRS}
         run.check(attrs == {attr}, r3, fi.short, 'reads macro-step attribute %s' % attr, 'reads %s' % sorted(attrs), F)
-        run.check(not any(isinstance(n, ast.Subscript) and isinstance(n.slice, ast.Slice) and ps[0] in q.unparse(n.value) for n in q.walk(F)), r3, fi.short,
+        run.check(not any(isinstance(n, ast.Subscript) and isinstance(n.slice, ast.Slice) and ps[0] in q.unparse(n.value) for g in fam for n in q.walk(g)), r3, fi.short,
                   'all the given steps are examined', 'only a slice of the steps is examined', F)
-        # the search over steps (and over the events of a step) never stops before a match: no break out of those loops
-        for lp_ in [n for n in q.walk(F, False) if isinstance(n, ast.For) and not q.unparse(n.iter).endswith('.items()')]:
-            early = [b for st_ in lp_.body for b in ast.walk(st_) if isinstance(b, ast.Break) and q.enclosing(b, ast.For) is lp_]
-            run.check(not early, r3, fi.short, 'the search loop over %s runs until a match or the end' % q.unparse(lp_.iter)[:30],
-                      'a break leaves the search before every candidate was examined: a later matching element is missed', early[0] if early else lp_)
-        rets = [n for n in q.walk(F, False) if isinstance(n, ast.Return)]
-        trues = [x for x in rets if isinstance(x.value, ast.Constant) and x.value.value is True]
-        falses = [x for x in rets if isinstance(x.value, ast.Constant) and x.value.value is False]
-        anys = [x for x in rets if isinstance(strip_cast(x.value), ast.Call) and isinstance(strip_cast(x.value).func, ast.Name) and strip_cast(x.value).func.id == 'any'
-                and isinstance(strip_cast(x.value).args[0], (ast.GeneratorExp, ast.ListComp))]
-        run.check(len(trues) + len(falses) + len(anys) == len(rets) and (anys or (trues and falses)), r3, fi.short, 'returns a boolean verdict (True/False literals or any(..))',
-                  'other return values', F)
-        for x in trues:
-            at = guard_atoms(x)
-            in_loop = q.enclosing(x, ast.For) is not None or (isinstance(getattr(x, '_parent', None), ast.For) and x in x._parent.orelse)
-            run.check(in_loop and (len(at) >= 1 or isinstance(getattr(x, '_parent', None), ast.For)), r3, fi.short, 'True only under a match inside the loop', 'unconditional True', x)
-        for x in falses:
+        # the search never stops before a match: a break out of a search loop is only allowed where the match has just been recorded
+        for g in fam:
+            for lp_ in [n for n in q.walk(g, False) if isinstance(n, ast.For) and not q.unparse(n.iter).endswith('.items()')]:
+                for b in [b for st_ in lp_.body for b in ast.walk(st_) if isinstance(b, ast.Break) and q.enclosing(b, ast.For) is lp_]:
+                    blk_ = q.block_of(b)
+                    recorded = any(isinstance(x, ast.Assign) and isinstance(x.value, ast.Constant) and x.value.value is True for x in blk_[:blk_.index(b)])
+                    run.check(recorded, r3, fi.short, 'the search loop over %s runs until a match or the end' % q.unparse(lp_.iter)[:30],
+                              'a break leaves the search before every candidate was examined: a later matching element is missed', b)
+        for x in [n for g in fam[:1] for n in q.walk(g, False) if isinstance(n, ast.Return) and isinstance(n.value, ast.Constant) and n.value.value is False]:
             run.check(q.enclosing(x, (ast.For, ast.While)) is None, r3, fi.short, 'False only after all steps were examined', 'returns False inside the loop', x)
-        # the verdict depends on every argument
-        nm = set()
-        for x in trues:
-            for g in guards(x):
-                nm |= value_names(F, g[0])
-            lp_ = x._parent if isinstance(getattr(x, '_parent', None), ast.For) and x in x._parent.orelse else None
-            if lp_ is not None:
-                nm |= value_names(F, lp_.iter)
-                for b in [b for b in ast.walk(lp_) if isinstance(b, ast.Break)]:
-                    for g in guards(b, stop=lp_):
-                        nm |= value_names(F, g[0])
-        for x in anys:
-            nm |= value_names(F, x.value)
-        # arguments handed to a private helper of the module count through the helper's own use of its parameters
-        for c in q.calls(F):
-            if isinstance(c.func, ast.Name) and c.func.id.startswith('_'):
-                h = [f for f in tmod.tree.body if isinstance(f, ast.FunctionDef) and f.name == c.func.id]
-                if h and any(q.in_node(c, g[0]) for x in trues for g in guards(x)):
-                    for a_ in c.args:
-                        nm |= value_names(F, a_)
-        need = [p_ for p_ in ps[1:] if p_ not in nm]
-        run.check(not need, r3, fi.short, 'the match depends on %s' % ps[1:], 'arguments %s ignored' % need, F)
-        wrap = [n for n in q.walk(F) if isinstance(n, ast.Call) and isinstance(n.func, ast.Name) and n.func.id == 'isinstance' and len(n.args) == 2
-                and q.unparse(n.args[1]) == 'list' and any(isinstance(x, ast.Name) and (x.id in aliases or x.id.startswith(ps[0] + '__i')) for x in ast.walk(n.args[0]))]
-        run.check(len(wrap) >= 1, r3, fi.short, 'accepts a macro step or a list of them', 'a single macro step is not wrapped into a list', F)
+        # inside a search loop only a match may end the search: a return there yields the constant True
+        for x in [n for n in q.walk(F, False) if isinstance(n, ast.Return) and q.enclosing(n, (ast.For, ast.While)) is not None]:
+            lp_ = q.enclosing(x, (ast.For, ast.While))
+            if isinstance(lp_, ast.For) and q.unparse(lp_.iter).endswith('.items()'):
+                continue
+            run.check(isinstance(x.value, ast.Constant) and x.value.value is True, r3, fi.short, 'a return inside the search loop reports a match',
+                      'the search returns the verdict of the first candidate examined (%s): a later matching candidate is never looked at' % q.unparse(x.value)[:50], x)
 
     def all_match_form(fn, pvar):
         """The loop over pvar.items() in fn decides `every expected parameter matches` in one of the accepted forms."""
@@ -644,6 +688,12 @@ def check(run):
     S = sc.node
     mk = [n for n in q.walk(S) if isinstance(n, ast.Assign) and q.unparse(n.targets[0]) == 'context.interpreter']
     v = strip_cast(mk[0].value) if len(mk) == 1 else None
+    ialias = {'context.interpreter'}
+    if isinstance(v, ast.Name):
+        # built in a local first, then published: interpreter = klass(sc); context.interpreter = interpreter
+        ialias.add(v.id)
+        o_ = q.local_origin(S, v)
+        v = strip_cast(o_[0]) if len(o_) == 1 else v
     shape = isinstance(v, ast.Call) and isinstance(v.func, ast.Name) and len(v.args) == 1 and isinstance(v.args[0], ast.Name) and not v.keywords
     run.check(shape, r4, sc.short, 'a fresh interpreter of the configured statechart per scenario', 'differs', S)
     if shape:
@@ -652,7 +702,7 @@ def check(run):
             run.check(len(d) == 1 and q.unparse(d[0][1]) == "context.config.userdata.get('%s')" % key, r4, sc.short, '%s taken from the configuration' % key, 'differs', S)
     init = {q.unparse(n.targets[0]): q.unparse(n.value) for n in q.walk(S) if isinstance(n, ast.Assign)}
     run.check(init.get('context._monitoring') == 'False' and init.get('context.monitored_trace') == 'None', r4, sc.short, 'scenario starts unmonitored with no trace', 'differs', S)
-    bp = [c for c in q.calls(S) if q.unparse(c.func) == 'context.interpreter.bind_property_statechart']
+    bp = [c for c in q.calls(S) if isinstance(c.func, ast.Attribute) and c.func.attr == 'bind_property_statechart' and q.unparse(c.func.value) in ialias]
     good = len(bp) == 1 and q.enclosing(bp[0], ast.For) is not None and "userdata.get('property_statecharts')" in q.unparse(q.enclosing(bp[0], ast.For).iter) and \
         q.unparse(bp[0].args[0]) == q.enclosing(bp[0], ast.For).target.id and not guards(bp[0], stop=q.enclosing(bp[0], ast.For))
     run.check(good, r4, sc.short, 'every configured property statechart is bound', 'differs', S)
@@ -757,9 +807,10 @@ def check(run):
         run.check(g is not w, r6, g.name, "'%s': distinct given / when implementations (the keyword must follow the invoking step)" % pat,
                   'one function serves both step types: the embedded steps cannot be re-executed under the keyword they were invoked with '
                   '(a `given` reproduction would run `when` sub-steps and start monitoring too early)', g)
-        ex = [c for c in q.calls(g) if q.unparse(c.func) == 'context.execute_steps']
-        names = {x.id for x in ast.walk(ex[0]) if isinstance(x, ast.Name)} if len(ex) == 1 else set()
-        run.check(len(ex) == 1 and 'keyword' in names and q.param_defaults(g).get('keyword') == 'Given', r6, g.name,
+        smod = run.tree.modules['sismic.bdd.steps'].tree
+        ex = [(c, names_) for G_, names_ in helper_family(smod, g, ('keyword',)) for c in q.calls(G_) if q.unparse(c.func).endswith('.execute_steps')]
+        used = any(names_.get('keyword') in {x.id for x in ast.walk(c) if isinstance(x, ast.Name)} for c, names_ in ex)
+        run.check(len(ex) == 1 and used and q.param_defaults(g).get('keyword') == 'Given', r6, g.name,
                   'embedded steps executed under the invoking keyword (default Given)', 'differs', g)
         if g is not w:
             c2 = [c for c in q.calls(w) if isinstance(c.func, ast.Name) and c.func.id == g.name]
@@ -770,16 +821,32 @@ def check(run):
     run.check(len(lp) == 1 and q.unparse(lp[0].iter) == 'range(repeat)' and any('step' in {x.id for x in ast.walk(c) if isinstance(x, ast.Name)} for c in q.calls(lp[0])), r6, rp.short,
               'the step is executed `repeat` times', 'differs', rp.node)
     rs = run.fn('sismic.bdd.steps:reproduce_scenario')
-    ex = [c for c in q.calls(rs.node) if q.unparse(c.func) == 'context.execute_steps']
+    scen0 = q.param_names(rs.node)[1]
+    fam_ = helper_family(run.tree.modules['sismic.bdd.steps'].tree, rs.node, (scen0,))
+    ex = [(c, G_, names_) for G_, names_ in fam_ for c in q.calls(G_) if q.unparse(c.func).endswith('.execute_steps')
+          and any(isinstance(x, ast.Attribute) and x.attr == 'name' for x in ast.walk(c))]
+    run.check(len(ex) == 1, r6, rs.short, 'one site re-executing the steps of the reproduced scenario', 'found %d' % len(ex), rs.node)
     if ex:
+        ex0, G0, names0 = ex[0]
+        ex = [ex0]
         at = guard_atoms(ex[0])
-        scen = q.param_names(rs.node)[1]
+        scen = names0.get(scen0, scen0)
         run.check(any(a[0] == '==' and ((a[1].endswith('.name') and a[2] == scen) or (a[2].endswith('.name') and a[1] == scen)) for a in at), r6, rs.short,
                   'reproduces the scenario of the given name', 'condition is %s' % at, ex[0])
         run.check(any(a[0] == 'in' and a[1].endswith('.step_type') and "'given'" in a[2] and "'when'" in a[2] for a in at), r6, rs.short, 'only its given/when steps are re-executed', 'differs', ex[0])
         fails_ = [n for n in q.walk(rs.node) if (isinstance(n, ast.Assert) and isinstance(strip_cast(n.test), ast.Constant) and not strip_cast(n.test).value)
                   or (isinstance(n, ast.Raise) and q.raised_class(n) == 'AssertionError')]
-        run.check(any(not any(a[0] == '==' and scen in (a[1], a[2]) for a in guard_atoms(n)) for n in fails_), r6, rs.short, 'an unknown scenario name fails the step',
+        okf_ = any(not any(a[0] == '==' and scen0 in (a[1], a[2]) for a in guard_atoms(n)) for n in fails_)
+        if not okf_ and G0 is not rs.node:
+            # the search lives in a helper that reports whether the scenario exists: its verdict is asserted
+            hcalls = [c for c in q.calls(rs.node) if isinstance(c.func, ast.Name) and c.func.id == G0.name]
+            rets_ = [x for x in q.walk(G0, False) if isinstance(x, ast.Return)]
+            found_true = [x for x in rets_ if isinstance(x.value, ast.Constant) and x.value.value is True and any(a[0] == '==' and scen in (a[1], a[2]) for a in guard_atoms(x))]
+            last_false = bool(G0.body) and isinstance(G0.body[-1], ast.Return) and isinstance(G0.body[-1].value, ast.Constant) and G0.body[-1].value.value is False
+            asserted = [a for a in q.walk(rs.node) if isinstance(a, ast.Assert) and any(q.in_node(c, a.test) or (isinstance(strip_cast(a.test), ast.Name) and any(
+                strip_cast(v) is c for st, v in q.assigned_value(rs.node, strip_cast(a.test).id))) for c in hcalls)]
+            okf_ = bool(found_true) and last_false and len(found_true) + 1 == len(rets_) and bool(asserted) and not guards(asserted[0])
+        run.check(okf_, r6, rs.short, 'an unknown scenario name fails the step',
                   'reproducing a scenario that does not exist passes silently', rs.node)
         lp_ = q.enclosing(ex[0], ast.For)
         run.check(lp_ is not None and not any(isinstance(x, ast.Break) for x in ast.walk(lp_)), r6, rs.short, 'every given/when step of the reproduced scenario is re-executed',
